@@ -101,6 +101,23 @@ class Summaries:
         E["core::f32::<impl f32>::powf"] = self.float_top
         E["core::f64::<impl f64>::powf"] = self.float_top
         E["core::char::methods::<impl char>::to_digit"] = self.to_digit
+        for vp in ("core::vec::Vec::<T, A>::", "core::vec::Vec::<T>::"):
+            E[vp + "with_capacity"] = self.vec_with_capacity
+            E[vp + "new"] = self.vec_with_capacity
+            E[vp + "len"] = self.vec_len
+            E[vp + "capacity"] = self.vec_capacity
+            E[vp + "push"] = self.vec_push
+            E[vp + "pop"] = self.vec_pop
+            E[vp + "extend_from_slice"] = self.vec_extend
+            E[vp + "resize"] = self.vec_resize
+            E[vp + "set_len"] = self.vec_set_len
+            E[vp + "as_ptr"] = self.vec_as_ptr
+            E[vp + "as_mut_ptr"] = self.vec_as_ptr
+            E[vp + "as_slice"] = self.vec_deref
+            E[vp + "as_mut_slice"] = self.vec_deref
+        E["<core::vec::Vec<T, A> as core::ops::Deref>::deref"] = self.vec_deref
+        E["<core::vec::Vec<T, A> as core::ops::DerefMut>::deref_mut"] = self.vec_deref
+        E["<core::vec::Vec<T, A> as core::clone::Clone>::clone"] = self.vec_clone
         E["core::hint::must_use"] = self.identity
         E["core::hint::black_box"] = self.identity
         E["core::mem::MaybeUninit::<T>::uninit"] = self.uninit
@@ -478,9 +495,9 @@ class Summaries:
             self.ctx.oblige("from_raw_parts-valid", False, inst, sp, "untracked pointer")
             return [(st, new_ptr(("slice", ("ext", "unknown", None), None, n if is_int(n) else new_int(0, A1_BOUND))))]
         region, off = d[1], d[2]
-        cap = self.I.region_cap(st, region)
         end_hi = self.I.sum_hi(st, off, n)
-        ok = cap is not None and end_hi <= cap and st.get_iv(off)[0] >= 0
+        okc, cap = self.I.within_cap(st, region, self.I.sum_atom(st, off, n), end_hi)
+        ok = okc and st.get_iv(off)[0] >= 0
         self.ctx.oblige("from_raw_parts-in-capacity", ok, inst, sp, "offset %s len %s capacity %s" % (st.get_iv(off), st.get_iv(n), cap))
         ik = self.I.buf_init_key(region)
         if ik is not None:
@@ -504,6 +521,171 @@ class Summaries:
             self.ctx.oblige("raw-write-in-capacity", False, inst, self.span(t), "write_bytes to an untracked destination")
             st.ghost.pop(("pristine",), None)
         return [(st, None)]
+
+    # -- alloc::vec::Vec<Limb> (heap back-end) -----------------------------------------
+    # A Vec value is the cell group  K: obj("vec"),  K+g.vlen: length,  K+g.vcap: capacity,  K+g.init: initialised prefix of its
+    # buffer (a lower bound; INV: vlen <= init <= vcap).  Pointers into the buffer use the region ("heap", K).  A growth that may
+    # reallocate gets a fresh capacity atom (>= old capacity, >= new length) and forgets initialisation beyond the new length.
+    # Not modelled: raw pointers into the old buffer kept across a reallocating call (the borrow checker rules this out for references).
+    VL, VC, VI = (("g", "vlen"),), (("g", "vcap"),), (("g", "init"),)
+
+    def vec_key(self, st, p):
+        d = G.ptr.get(p) if type(p) is int else None
+        if d and d[0] == "loc" and is_int(st.env.get(tuple(d[1]) + self.VL)):
+            return tuple(d[1])
+        return None
+
+    def vec_value(self, ln, cap, init):
+        from .engine import Fields
+        return Fields({(): new_obj(("vec",)), self.VL: ln, self.VC: cap, self.VI: init})
+
+    def vec_untracked(self, st, inst, t, what):
+        self.ctx.oblige("unmodelled-call", False, inst, self.span(t), "Vec::%s on a vector the engine does not track" % what)
+        return None
+
+    def vec_with_capacity(self, st, fr, inst, t, callee, args):
+        n = args[0] if args and is_int(args[0]) else const_int(0)
+        N = st.get_iv(n)
+        cap = new_int(max(N[0], 0), A1_BOUND)
+        st.add_fact(n, cap, 0)
+        return [(st, self.vec_value(const_int(0), cap, const_int(0)))]
+
+    def vec_len(self, st, fr, inst, t, callee, args):
+        K = self.vec_key(st, args[0])
+        if K is None:
+            self.vec_untracked(st, inst, t, "len")
+            return [(st, new_int(0, A1_BOUND))]
+        return [(st, st.env[K + self.VL])]
+
+    def vec_capacity(self, st, fr, inst, t, callee, args):
+        K = self.vec_key(st, args[0])
+        if K is None:
+            self.vec_untracked(st, inst, t, "capacity")
+            return [(st, new_int(0, A1_BOUND))]
+        return [(st, st.env[K + self.VC])]
+
+    def _vec_grow(self, st, K, new_len):
+        """length becomes new_len (>= old length) through a safe growing call"""
+        cap, init = st.env[K + self.VC], st.env[K + self.VI]
+        st.ghost.pop(("pristine",), None)
+        if st.diff_le(new_len, cap, 0):
+            # fits: no reallocation; the written slots extend the initialised prefix if they start inside it
+            if not st.diff_le(new_len, init, 0):
+                st.env[K + self.VI] = new_len
+        else:
+            L, C = st.get_iv(new_len), st.get_iv(cap)
+            c2 = new_int(max(L[0], C[0]), A1_BOUND)
+            st.add_fact(cap, c2, 0)
+            st.add_fact(new_len, c2, 0)
+            st.env[K + self.VC] = c2
+            st.env[K + self.VI] = new_len
+        st.env[K + self.VL] = new_len
+
+    def vec_push(self, st, fr, inst, t, callee, args):
+        K = self.vec_key(st, args[0])
+        if K is None:
+            self.vec_untracked(st, inst, t, "push")
+            return [(st, None)]
+        ln = st.env[K + self.VL]
+        self._vec_grow(st, K, self.I.addc(st, ln, 1))
+        return [(st, None)]
+
+    def vec_extend(self, st, fr, inst, t, callee, args):
+        K = self.vec_key(st, args[0])
+        sl = self.slice_of(args[1])
+        if K is None or sl is None or not is_int(sl[3]):
+            self.vec_untracked(st, inst, t, "extend_from_slice")
+            return [(st, None)]
+        ln = st.env[K + self.VL]
+        nl = self.I.sum_atom(st, ln, sl[3])
+        if nl is None:
+            a, b = st.get_iv(ln), st.get_iv(sl[3])
+            nl = new_int(a[0] + b[0], a[1] + b[1])
+        self._vec_grow(st, K, nl)
+        return [(st, None)]
+
+    def vec_resize(self, st, fr, inst, t, callee, args):
+        K = self.vec_key(st, args[0])
+        n = args[1]
+        if K is None or not is_int(n):
+            self.vec_untracked(st, inst, t, "resize")
+            return [(st, None)]
+        ln = st.env[K + self.VL]
+        if st.diff_le(n, ln, 0):
+            st.ghost.pop(("pristine",), None)
+            st.env[K + self.VL] = n          # truncation: buffer and initialisation unchanged
+            return [(st, None)]
+        out = []
+        # may shrink or grow: split
+        s1 = st.copy()
+        if s1.add_fact(n, ln, 0):
+            s1.ghost.pop(("pristine",), None)
+            s1.env[K + self.VL] = n
+            out.append((s1, None))
+        if st.add_fact(ln, n, -1):
+            self._vec_grow(st, K, n)
+            out.append((st, None))
+        return out
+
+    def vec_pop(self, st, fr, inst, t, callee, args):
+        from .engine import Fields
+        K = self.vec_key(st, args[0])
+        if K is None:
+            self.vec_untracked(st, inst, t, "pop")
+            return [(st, Fields({("discr",): new_int(0, 1)}))]
+        ln = st.env[K + self.VL]
+        out = []
+        s0 = st.copy()
+        if s0.set_iv(ln, 0, 0):
+            out.append((s0, Fields({("discr",): const_int(0)})))
+        if st.set_iv(ln, 1, st.get_iv(ln)[1]):
+            st.ghost.pop(("pristine",), None)
+            st.env[K + self.VL] = self.I.addc(st, ln, -1)
+            ety = callee["locals"][0]
+            out.append((st, Fields({("discr",): const_int(1), (("v", 1), ("f", 0)): new_int(0, (1 << 64) - 1)})))
+        return out
+
+    def vec_set_len(self, st, fr, inst, t, callee, args):
+        K = self.vec_key(st, args[0])
+        n = args[1]
+        if K is None or not is_int(n):
+            self.vec_untracked(st, inst, t, "set_len")
+            return [(st, None)]
+        cap, init = st.env[K + self.VC], st.env[K + self.VI]
+        N = st.get_iv(n)
+        okc = N[1] <= st.get_iv(cap)[0] or st.diff_le(n, cap, 0)
+        oki = N[1] <= st.get_iv(init)[0] or st.diff_le(n, init, 0)
+        self.ctx.oblige("raw-set_len-in-capacity", okc, inst, self.span(t), "new length %s capacity %s" % (N, st.get_iv(cap)))
+        self.ctx.oblige("raw-set_len-initialised", oki, inst, self.span(t), "new length %s initialised prefix %s" % (N, st.get_iv(init)))
+        st.ghost.pop(("pristine",), None)
+        st.env[K + self.VL] = n
+        return [(st, None)]
+
+    def vec_deref(self, st, fr, inst, t, callee, args):
+        K = self.vec_key(st, args[0])
+        if K is None:
+            self.vec_untracked(st, inst, t, "deref")
+            return [(st, new_ptr(("slice", ("ext", "untracked-vec", None), const_int(0), new_int(0, A1_BOUND))))]
+        return [(st, new_ptr(("slice", ("heap", K), const_int(0), st.env[K + self.VL])))]
+
+    def vec_as_ptr(self, st, fr, inst, t, callee, args):
+        K = self.vec_key(st, args[0])
+        if K is None:
+            self.vec_untracked(st, inst, t, "as_ptr")
+            return [(st, new_top())]
+        return [(st, new_ptr(("buf", ("heap", K), const_int(0))))]
+
+    def vec_clone(self, st, fr, inst, t, callee, args):
+        K = self.vec_key(st, args[0])
+        if K is None:
+            self.vec_untracked(st, inst, t, "clone")
+            ln = new_int(0, A1_BOUND)
+        else:
+            ln = st.env[K + self.VL]
+        L = st.get_iv(ln)
+        cap = new_int(L[0], A1_BOUND)
+        st.add_fact(ln, cap, 0)
+        return [(st, self.vec_value(ln, cap, ln))]
 
     # -- integers ------------------------------------------------------------------
     def ret_ty(self, t):
